@@ -101,15 +101,22 @@ def msp430Words (m : Memory) (a : BitVec 32) : Nat → List (BitVec 32 × BitVec
   | k + 1 => (a, wordLE m a) :: msp430Words m (a + 2) k
 
 /-- `disasm_msp430` reads the opcode words with `memory->read16` -/
-def msp430Len (m : Memory) (a : BitVec 32) : Nat :=
+def msp430Count (m : Memory) (a : BitVec 32) : Nat :=
   Msp430.Sim.disLen (read16 m a) (read16 m (a + 2))
+
+/-- words printed for one instruction: `count -= 2; start += 2; while (count > 0) { print; count -= 2; start += 2; }`
+prints the first word and one more for every further started pair of bytes -/
+def msp430WordCount (count : Nat) : Nat := max 1 ((count + 1) / 2)
+
+/-- how far `list_output_msp430` advances per instruction (equal to `count`: `msp430_advance_is_count`) -/
+def msp430Len (m : Memory) (a : BitVec 32) : Nat := 2 * msp430WordCount (msp430Count m a)
 
 /-- `list_output_msp430` (16-bit core) -/
 def msp430 : Formatter where
   adjust := fun m s => if s &&& 1 ≠ 0 ∧ readDebug m s = dlData then s + 1 else s
   len := msp430Len
   render := fun m a =>
-    let ws := msp430Words m a (msp430Len m a / 2)
+    let ws := msp430Words m a (msp430WordCount (msp430Count m a))
     { addr := a, len := msp430Len m a, cells := ws.flatMap fun p => cellsOfWord16LE p.1 p.2,
       words := ws.map (·.2.toNat), cycles := Msp430.Sim.disCycles (read16 m a) (read16 m (a + 2)) }
 
@@ -348,23 +355,25 @@ def DumpSt.flush (s : DumpSt) : DumpSt :=
 /-- `for (k = 0; k < i % bpa && k < 15; k++) { 3 blanks; str[ptr++] = ' '; ch++; }` -/
 def blanks (i bpa : Nat) : Nat := min (i % bpa) 15
 
+/-- a new line is started: `output_hex_text` for a full line, `"\n%04x:"`, the blank columns -/
+def DumpSt.newLine (s : DumpSt) (i bpa : Nat) : DumpSt :=
+  { done := s.flush.done, cur := some { unit := i / bpa, cols := List.replicate (blanks i bpa) none }, ch := blanks i bpa }
+
+/-- `fprintf(" %02x", data); str[ptr++] = …; ch++; if (ch == 16) ch = 0;` -/
+def DumpSt.push (s : DumpSt) (b : Byte) : DumpSt :=
+  { done := s.done
+    cur := match s.cur with
+      | some l => some { l with cols := l.cols ++ [some b] }
+      | none => none                                 -- unreachable: a line is open whenever a byte is pushed
+    ch := if s.ch + 1 = 16 then 0 else s.ch + 1 }
+
 /-- body of `for (i = low_address; i <= high_address; i++)` -/
 def dumpStep (m : Memory) (bpa : Nat) (s : DumpSt) (i : Nat) : DumpSt :=
   let a := BitVec.ofNat 32 i
   if readDebug m a = dlData then
-    let s1 : DumpSt :=
-      if s.ch = 0 then
-        let s0 := s.flush
-        let k := blanks i bpa
-        { s0 with cur := some { unit := i / bpa, cols := List.replicate k none }, ch := k }
-      else s
-    let s2 : DumpSt :=
-      match s1.cur with
-      | some l => { s1 with cur := some { l with cols := l.cols ++ [some (read8 m a)] } }
-      | none => s1                                   -- unreachable: a line is open whenever ch ≠ 0 or was just opened
-    { s2 with ch := if s2.ch + 1 = 16 then 0 else s2.ch + 1 }
+    (if s.ch = 0 then s.newLine i bpa else s).push (read8 m a)
   else
-    { s.flush with ch := 0 }
+    { done := s.flush.done, cur := none, ch := 0 }
 
 /-- the addresses `low, low+1, …, high` (none when `low > high`: an empty image has low = 0xffffffff, high = 0) -/
 def dumpRange (low high : Nat) : List Nat := (List.range (high + 1 - low)).map (low + ·)
@@ -375,9 +384,14 @@ def dump (m : Memory) (bpa : Nat) : List DLine :=
   let s := (dumpRange m.lowAddress.toNat m.highAddress.toNat).foldl (dumpStep m bpa) { done := [], cur := none, ch := 0 }
   s.flush.done.reverse
 
+/-- the bytes of the columns `k, k+1, …` of a line whose column 0 is the byte at address `base` -/
+def colCells (base : Nat) : Nat → List (Option Byte) → List (Nat × Byte)
+  | _, [] => []
+  | k, none :: cs => colCells base (k + 1) cs
+  | k, some b :: cs => (base + k, b) :: colCells base (k + 1) cs
+
 /-- what a reader takes from a dump line: column `k` of the line headed `unit` is the byte at `unit * bpa + k` -/
-def dlineCells (bpa : Nat) (l : DLine) : List (Nat × Byte) :=
-  (l.cols.zipIdx).filterMap fun (c, k) => c.map fun b => (l.unit * bpa + k, b)
+def dlineCells (bpa : Nat) (l : DLine) : List (Nat × Byte) := colCells (l.unit * bpa) 0 l.cols
 
 def dumpCells (bpa : Nat) (ls : List DLine) : List (Nat × Byte) := ls.flatMap (dlineCells bpa)
 
